@@ -174,7 +174,7 @@ func TestC06Map(t *testing.T) { propC06FM.Test(t) }
 // ------------------------------------------------------------------ (b) protocol level
 
 type fhOp struct {
-	Kind string `json:"kind"` // mnt lookup create mkdir symlink readdirplus use lookupvia release unexport
+	Kind string `json:"kind"` // mnt lookup create mkdir symlink readdirplus use lookupvia release unexport remove rename
 	Dir  int    `json:"dir"`
 	Name int    `json:"name"`
 	K    int    `json:"k"`
@@ -190,7 +190,7 @@ func genFH(t *rapid.T) fhCase {
 	c := fhCase{Max: pick(t, "max", 3, 5, 8, 12, 37, 0)}
 	n := rapid.IntRange(3, 60).Draw(t, "nops")
 	for i := 0; i < n; i++ {
-		op := fhOp{Kind: pick(t, "kind", "lookup", "lookup", "lookup", "lookup", "create", "mkdir", "symlink", "readdirplus", "use", "use", "use", "lookupvia", "release", "unexport", "mnt")}
+		op := fhOp{Kind: pick(t, "kind", "lookup", "lookup", "lookup", "lookup", "create", "mkdir", "symlink", "readdirplus", "use", "use", "use", "lookupvia", "release", "unexport", "mnt", "remove", "rename")}
 		if op.Kind == "unexport" && rapid.IntRange(0, 3).Draw(t, "rare") != 0 {
 			op.Kind = "use"
 		}
@@ -229,6 +229,8 @@ func runFH(tb stat.TB, c fhCase, id, check string) {
 	var root []byte
 	usedGone, evicted := false, false
 	fullFree := false
+	everFull := false                  // the table has been at its limit at some point: entries may have been evicted
+	releasedByUs := map[uint64]bool{} // values the harness released explicitly (Release, Unexport)
 	labels := map[string]bool{}
 
 	// got is called for every handle a reply carried.
@@ -258,6 +260,11 @@ func runFH(tb stat.TB, c fhCase, id, check string) {
 				// a single-allocation request cannot have freed the id it returns: this is not the documented
 				// recycling of a freed id, the value was live for another path when the request arrived
 				return stat.Violate(tb, id, check, "live-handle-value-issued-for-another-path", c, "op#%d %s: value %d was live for %s when the request arrived and was issued for %s", i, via, h, g, p)
+			}
+			if g, seen := ghost[h]; seen && g != p && !everFull && !releasedByUs[h] && gepoch[h] == epoch {
+				// the documented design recycles ids freed by eviction (table at its limit) or by an explicit
+				// Release/ReleaseAll: neither happened to this value, something else gave it away
+				return stat.Violate(tb, id, check, "handle-value-freed-without-eviction-or-release", c, "op#%d %s: value %d, given out for %s, was issued for %s although the table never reached its limit and nobody released the value", i, via, h, g, p)
 			}
 			if g, seen := ghost[h]; seen && g != p {
 				sig := "handle-value-reissued-after-eviction-or-release"
@@ -336,6 +343,9 @@ func runFH(tb stat.TB, c fhCase, id, check string) {
 		for i, op := range c.Ops {
 			if fm.Count() >= effMax && fm.VerifFreeLen() > 0 {
 				fullFree = true
+			}
+			if fm.Count()+fhFiles+3 >= effMax {
+				everFull = true // (conservative: one more request could fill the table)
 			}
 			before := fm.Count()
 			pre := liveNow()
@@ -479,11 +489,25 @@ func runFH(tb stat.TB, c fhCase, id, check string) {
 			case "release":
 				if len(issued) > 0 {
 					fm.Release(issued[op.K%len(issued)])
+					releasedByUs[issued[op.K%len(issued)]] = true
 				}
 			case "unexport":
 				s.e.NFS.Unexport()
 				epoch++
 				labels["unexport"] = true
+			case "remove", "rename":
+				// namespace changes do not free handle values: a value given out for a path that is gone stays
+				// bound to that path (NOENT / STALE), it is not handed to the next new path
+				if !ensureDir() {
+					continue
+				}
+				name := fmt.Sprintf("n%d", op.Name)
+				if op.Kind == "remove" {
+					s.nfs(nfsx.ProcRemove, nfsx.ArgsDirop(dirFh[op.Dir], name))
+				} else {
+					s.nfs(nfsx.ProcRename, nfsx.ArgsRename(dirFh[op.Dir], name, dirFh[op.Dir], fmt.Sprintf("r%d_%d", op.Name, i)))
+				}
+				labels["namespace_change"] = true
 			}
 			if fm.Count() < before || (fm.Count() == before && before >= effMax) {
 				evicted = true
